@@ -76,3 +76,29 @@ func TestVerifReplay(t *testing.T) {
 		fmt.Printf("REPLAY %d %s\n", i, res)
 	}
 }
+
+// TestVerifInspect: concrete differential — Inspect() of each program, natively.
+func TestVerifInspect(t *testing.T) {
+	path := os.Getenv("VERIF_INSPECT_FILE")
+	if path == "" {
+		t.Skip("no inspect file")
+	}
+	b, err := os.ReadFile(path)
+	if err != nil {
+		t.Fatal(err)
+	}
+	var srcs []string
+	if err := json.Unmarshal(b, &srcs); err != nil {
+		t.Fatal(err)
+	}
+	for i, s := range srcs {
+		func() {
+			defer func() {
+				if r := recover(); r != nil {
+					fmt.Printf("INSPECT %d %q\n", i, fmt.Sprintf("PANIC: %v", r))
+				}
+			}()
+			fmt.Printf("INSPECT %d %q\n", i, Inspect(s))
+		}()
+	}
+}
